@@ -187,4 +187,60 @@ PROPS = {
             "files not starting with 'RIFF' fall through to Symphonia's other format readers: no model prediction (robustness oracles only)",
         ],
     },
+    "C03": {
+        "suites": [{"name": "psm", "quick": 2500, "thorough": 40000},
+                   {"name": "static", "quick": 3000, "thorough": 40000}],
+        "level_text": "Lean theorems over the reals about the models of playback_state_manager.rs, the life-cycle part shared by "
+                      "StaticSound and StreamingSound (SoundCore: pause/resume/stop handlers, the gating prefix of process, "
+                      "mark_as_stopped, the state mirrored to the handle) and the complete static sound: every command/update moves "
+                      "the state along a documented edge; the handle state always equals the manager's state; Stopped is absorbing "
+                      "for every later history and a stopped static sound writes exact zeros whatever it is sent; a fade-driven step "
+                      "happens exactly in the update in which the fade parameter finishes, which (with C06) is the first update at "
+                      "which accumulated time reaches the tween duration, for every partition; the fade moves monotonically and ends "
+                      "at exactly -60 dB = amplitude 0 / 0 dB = amplitude 1; exact silence and untouched transport/fraction/window/"
+                      "reported position whenever the start time is pending or the state is Paused/WaitingToResume/Stopped; every "
+                      "finite non-looping sound is Stopped after exactly remaining-frames + 4 position steps, forwards and in reverse; "
+                      "every history of the static sound moves its core by those events only. The same definitions run as a Float twin "
+                      "and agree bit-for-bit with kira (HPlaybackStateManager; Box<dyn Sound> + StaticSoundHandle via the public API)",
+        "level_note": "theorems over ideal real arithmetic; the streaming sound is covered through the shared SoundCore events only "
+                      "(its ring-buffer/decoder side is C09/C10); 'unloaded at the next callback, slot reusable' belongs to the "
+                      "resource-storage model (C08) and is not proved here; finite-sound bound is stated in position steps "
+                      "(C04_position_accumulates converts frames to steps at a constant rate); tie to the code = differential "
+                      "correspondence + implementation-side oracles on the real code",
+        "assumptions": [
+            "update steps dt >= 0 and finite; easing powers > 0 (C06)",
+            "fade closed form for immediate-start tweens with duration > 0 (delayed / clock start times of the *tween* are covered by "
+            "the correspondence and by C06's start-time theorems)",
+            "slice inside the data for the finite-sound theorem",
+        ],
+    },
+    "C04": {
+        "suites": [{"name": "transport", "quick": 2500, "thorough": 40000},
+                   {"name": "static", "quick": 3000, "thorough": 40000},
+                   {"name": "static_ood", "quick": 30, "thorough": 60}],
+        "level_text": "Lean theorems about the models of transport.rs (over the naturals) and of static_sound/{data,sound,resampler}.rs "
+                      "+ frame.rs::interpolate_frame (over the reals): closed forms of the wrap loops and fuel independence; with a "
+                      "valid loop region no history of steps/seeks/loop changes faults, the play head stays inside the sound, wraps "
+                      "le-1 -> ls and ls -> le-1, ends exactly at n / 0; at rate +-1 on a device at the sound's rate the j-th output "
+                      "frame is exactly the source frame under the play head after j transport steps from the start position, for "
+                      "every partition into buffers, loops and reverse included, exact zeros after the end, Stopped exactly 4 steps "
+                      "after the transport ends; lookups never leave the slice and the interpolator window only ever holds slice "
+                      "frames or silence for every history; every output frame is the Hermite interpolation of the window at the "
+                      "current fraction and after k frames at a constant rate exactly floor(frac0 + k*sr*|r|*dt) position steps were "
+                      "taken; Hermite endpoints and exactness for polynomials of degree <= 2; seeks land on the loop-wrapped "
+                      "floor(x*sr); reported position * sr = index of window slot 1. The same definitions run as a Float twin and agree "
+                      "bit-for-bit with kira (HTransport; Box<dyn Sound> + StaticSoundHandle through the public API), exhaustively for "
+                      "small sounds in the thorough tier",
+        "level_note": "theorems over ideal real arithmetic (sr*(1/sr) = 1 is not always true in f64, e.g. sr = 49: the twin and the "
+                      "generator cover that, the rate-1 oracle skips it); DESIGN's 'reproduces cubics' is false of this kernel and is "
+                      "proved false (exact to degree 2); 'seek lands within one frame after the window refilled' is proved as: "
+                      "landing index + window = last four pushes (the frame at the landing position is pushed twice, a one-frame "
+                      "repeat, see notes); out-of-domain inputs fault in model and code alike (KNOWN-FINDING lines, C01 material)",
+        "assumptions": [
+            "loop region valid (ls < le <= n), slice inside the data, start position < length when reversed - kira enforces none of "
+            "these: violating them hangs or panics (known findings)",
+            "finite arguments; usize arithmetic modelled on unbounded naturals (positions near usize::MAX are outside the model)",
+            "rate-1 identity: volume 0 dB, centre panning, no fade, immediate start (the gain stage is covered by C19/C06 and the twin)",
+        ],
+    },
 }
